@@ -19,7 +19,7 @@ SPEC = {
                  # protocol level: concurrent callers on one object (Hive/Props/C07b.lean, model Hive/Model/SeqConc.lean)
                  "C07_concurrent_mutual_exclusion", "C07_concurrent_refines_sequential", "C07_concurrent_answers_are_sequential", "C07_concurrent_strictly_increasing",
                  "C07_concurrent_no_number_twice", "C07_concurrent_crash_wastes_le_interval", "C07_concurrent_crash_step",
-                 "C07_concurrent_release_wastes_none", "C07_concurrent_contiguous", "C07_concurrent_skeleton"],
+                 "C07_concurrent_release_wastes_none", "C07_concurrent_contiguous", "C07_concurrent_no_wrap", "C07_concurrent_skeleton"],
     "trusted_base": ["hand-written model Hive/Model/Seq.lean of kvstore/sequence.go, tied by differential execution (harness/c07)",
                      "hand-written protocol model Hive/Model/SeqConc.lean (micro-steps of Next/update/Release under seq.Mutex), tied by the regenerated lock/store-call skeletons and by recorded concurrent histories judged with the theorems' trace predicate ('chist' requests)",
                      "Go toolchain, compiled Lean driver"],
